@@ -713,6 +713,16 @@ def s_loop(c, label=None):
             if dk == "const":
                 c.consts.add(i)
             cap = "fns.push(() => " + i + "); " if r.random() < 0.3 else ""
+            if dk != "var" and r.random() < 0.3:
+                # the head expression gets its own (TDZ) scope: make that scope real -- a closure over the loop variable or a
+                # direct eval in the head -- and capture the loop variable and an inner let in the body
+                c.f("loop-head-scope-escapes:" + kind)
+                inner = c.fresh()
+                src = r.choice(["[() => %s, 2]" % i, "(eval('1'), %s)" % ("arr" if kw == "of" else "obj"),
+                                "[function () { return %s }]" % i, "(fns.push(() => %s), %s)" % (i, "arr" if kw == "of" else "obj")])
+                if kw == "in":
+                    src = src if src.startswith("(") else "{a: () => %s}" % i
+                cap = "fns.push(() => %s); let %s = %s; fns.push(() => %s + 1); " % (i, inner, i, inner)
             b = loop_body(c)
             c.locals.pop()
             return "for %s(%s %s %s %s) { %s%s }" % (aw, dk, i, kw, src, cap, b[1:-1])
